@@ -8,9 +8,9 @@ from . import data as D
 from .purity import ALL_CLASSES, FUNCS, SELECTORS, PurityWorld
 from .selgen import clock_fault, n_form
 
-STORAGES = ["C", "C", "C", "F", "view", "readonly", "memmap"]
+STORAGES = ["C", "C", "C", "F", "view", "readonly", "memmap", "memmap_rw", "subclass"]
 WELL = ["gauss", "uniform", "scaled", "clusters"]
-ANYK = ["gauss", "uniform", "scaled", "clusters", "lattice", "dups", "lowrank", "offset"]
+ANYK = ["gauss", "uniform", "scaled", "clusters", "lattice", "dups", "lowrank", "offset", "samerows", "samerows"]
 
 
 def _seed(rng):
@@ -79,8 +79,14 @@ class Builder:
             e["arpack"] = {"mode": rng.choice(["dense", "sparse", "same"]), "seed": _seed(rng), "fail_at": rng.choice([1, 1, 1, 2, 3])}
             allow = [a for a in allow if a != "interrupt"]
         if "joblib" in allow and rng.random() < 0.8:
+            # Ridge2FoldCV's per-alpha tasks only read shared arrays on the unchanged tree, so
+            # they may also run as shared-memory threads whose line-level interleaving the seed
+            # decides (the local reconstruction error shares one estimator between its tasks
+            # and is kept to atomic tasks, DESIGN 5.4)
+            modes = ["reorder", "reorder", "batch", "isolate", "twice"] + (["threads", "threads"] if kind == "Ridge2FoldCV" else [])
             e["joblib"] = {
-                "mode": rng.choice(["reorder", "reorder", "batch", "isolate", "twice"]),
+                "mode": rng.choice(modes),
+                "switch": rng.choice([0.05, 0.2, 0.5, 1.0]),
                 "seed": _seed(rng),
                 "workers": rng.randint(2, 4),
                 "reorder": rng.random() < 0.7,
@@ -170,6 +176,12 @@ def subj_selector(b, kind, pattern):
         t = rng.choice(["absolute", "relative", "relative"])
         p["score_threshold_type"] = t
         p["score_threshold"] = 10 ** rng.uniform(-3, -0.3) if (t == "relative" or fam in ("cur", "pcovcur")) else 10 ** rng.uniform(-3, 1)
+    if "samerows" in (XA["kind"], XB["kind"]) and rng.random() < 0.8:
+        # identical samples: every score after the first pick is exactly 0, so a relative
+        # threshold divides 0 by 0 (the degenerate branch of the threshold logic)
+        p.pop("full", None)
+        p["score_threshold_type"] = "relative"
+        p["score_threshold"] = rng.choice([0.5, 1e-3])
     xa, xb = b.ref(XA, "data"), b.ref(XB, "data")
     ya = b.ref(b.y_of(XA), "target")
     yb = b.ref(b.y_of(XB), "target")
